@@ -22,6 +22,7 @@ import signal as _signal
 import warnings as _warnings
 
 from . import proc
+from . import threads as _threads
 from .steps import SimInterrupt, Divergent, Inconclusive
 
 _REAL_OPEN = io.open
@@ -515,6 +516,8 @@ class World:
                        "path": list(sys.path)}
         self.atexit_stack = []      # callbacks the simulated process registered with atexit
         self.sig_handlers = {}      # signal handlers the simulated process installed
+        self.threads = _threads.Seam()      # threads the simulated process starts run under a seeded scheduler
+        self.sched_base = 0         # run-level seed of that scheduler (explicit in the run's cfg)
         self.restart(None)
 
     # -- bookkeeping
@@ -544,6 +547,11 @@ class World:
             self._old_nofile = None
 
     def close(self):
+        try:
+            self._note_threads()
+            self.threads.process_ends()
+        except Exception:
+            pass
         try:
             self.fs.end_op(process_ends=True)
         except Exception:
@@ -599,6 +607,8 @@ class World:
         """What a brand-new interpreter has, whatever the previous simulated process did to this one."""
         import decimal as _decimal
         p0 = self._proc0
+        self._note_threads()
+        self.threads.process_ends()
         self.atexit_stack = []
         self.sig_handlers = {}
         if sys.getrecursionlimit() != p0["reclimit"]:
@@ -634,6 +644,20 @@ class World:
             sys.path[:] = p0["path"]
         import tempfile as _tempfile
         _tempfile.tempdir = None
+
+    def quiet_budget_left(self):
+        """Long loops of identical calls inside one op stop early (deterministically) when the code under test
+        turns out to be far more expensive per call than the loop was sized for (every line a pre-emption
+        point once it starts threads, a thread pool per call)."""
+        n, _sw = self.threads.stats()
+        return self.stepclock.steps < 12_000_000 and n < 1500
+
+    def _note_threads(self):
+        n, sw = self.threads.stats()
+        if n and not getattr(self.threads.sched, "started_noted", False):
+            self.fired("threads-started-by-the-code", n)
+            self.fired("thread-switches-decided", sw)
+            self.threads.sched.started_noted = True
 
     # -- seams for process-level services the code under test may start using
     def _atexit_register(self, func, *a, **kw):
@@ -781,6 +805,12 @@ class World:
         sc.arm(fine=fine, interrupt_at=at,
                sweep_cap=cfg.get("sweep_cap") or self.DEFAULT_SWEEP_CAP,
                step_cap=cfg.get("step_cap") or self.DEFAULT_STEP_CAP, interrupt_exc=inj)
+        th_seed = cfg.get("sched_seed")
+        if th_seed is None:
+            th_seed = (self.sched_base * 1000003 + self.n_ops * 7919) & 0xFFFFFFFF
+        self.threads.install(th_seed, (0.03, 0.1, 0.1, 0.3)[th_seed % 4], sc.threads_started)
+        sc.sched = self.threads.sched
+        _threads.SLEEP_HOOK = lambda secs_: setattr(clk, "now", clk.now + max(0.0, float(secs_)))
         if kill:
             # the clock raises; the disk must know before any finaliser (`with`) runs, and no handler,
             # finally block or exit hook of the dead process may execute
@@ -822,6 +852,12 @@ class World:
                 e.__traceback__ = None
                 del e
         finally:
+            try:
+                # background threads of the simulated process run on until they finish or block
+                self.threads.uninstall()
+            except BaseException as e:  # noqa
+                out["threads_drain"] = type(e).__name__
+            _threads.SLEEP_HOOK = None
             if self.atexit_stack and (fs.killed or sc.dead):
                 self.atexit_stack = []          # a killed process runs no exit handlers
             if self.atexit_stack and cfg.get("process_ends"):
@@ -849,6 +885,9 @@ class World:
             fs.disk_time = clk.now
             if len(fs.open_files) or out["status"] != "ok":
                 gc.collect()
+            if cfg.get("process_ends") or fs.killed:
+                self._note_threads()
+                self.threads.process_ends()     # the threads of a process end with it
             fs.end_op(process_ends=bool(cfg.get("process_ends")))
             builtins.open = old[3]
             io.open = old[4]
